@@ -47,7 +47,7 @@ func (g *TreeGen) name() node.Name {
 
 var blindInts = []int{0, 1, 2, 3, 7, 63, 64, 1 << 31, 1<<63 - 1}
 var blindFloats = []float64{0.0, 1.5, 2.0, 1e-320, 1e308}
-var blindStrings = []string{"", "ab", "x", "12", "1.5", "a\"b"}
+var blindStrings = []string{"", "ab", "x", "12", "1.5", "a\"b", "日本語のテキスト", "ééééééééééé", "a long plain ascii text of 40 characters."}
 
 func (g *TreeGen) blindLeaf() node.Type {
 	switch g.pick(8) {
